@@ -14,6 +14,7 @@ pub fn quiet_panics() {
         } else {
             "<non-string panic>".to_string()
         };
+        if std::env::var("WFH_DEBUG").is_ok() { eprintln!("PANIC {loc}: {msg}"); }
         *LAST_PANIC.lock().unwrap() = Some(format!("{loc}: {msg}"));
     }));
 }
@@ -35,7 +36,7 @@ pub fn panic_key(msg: &str) -> String {
     };
     let file = loc.rsplit('/').next().unwrap_or(loc);
     let file = file.split(':').next().unwrap_or(file);
-    let short: String = rest.chars().take(48).map(|c| if c.is_ascii_digit() { '#' } else { c }).collect();
+    let short: String = rest.chars().take(64).map(|c| if c.is_ascii_digit() { '#' } else { c }).collect();
     format!("{file}: {short}")
 }
 
